@@ -20,6 +20,16 @@ def scenarios(tier):
         workers={"fa": {"*": OK("a")}, "fb": {"*": OK("b")}})
     add("crash-map-maxconc", chain(("M", Map(chain(("I", Task("fi"))), MaxConcurrency=1)), Z), workers={"fi": {"*": [["echo"]]}}, input=[1, 2])
     add("crash-task-catch", chain(("T", Task("f1", Catch=[{"ErrorEquals": ["States.ALL"], "Next": "Z", "ResultPath": "$.err"}])), Z), workers={"f1": {"*": ERR()}})
+    d = chain(("A", Pass()), ("W", Wait(3)), Z); d["TimeoutSeconds"] = 4
+    add("crash-wait-tight-deadline", d, downtime=2)
+    # a stale reply (its task timed out before the crash) parked in front of the reply of a task that was in flight at the crash
+    from harness.corpus import multi
+    mx = chain(("X", Task("fx", TimeoutSeconds=1, Catch=[{"ErrorEquals": ["States.ALL"], "Next": "ZX", "ResultPath": "$.e"}])), ("ZX", Pass()))
+    my = chain(("Y", Task("fy", TimeoutSeconds=3)), ("ZY", Pass()))
+    out.append(multi("crash-stale-reply", {"mx": {"definition": mx}, "my": {"definition": my}},
+                     [{"machine": "mx", "name": "e1", "input": {}}, {"machine": "my", "name": "e2", "input": {}}],
+                     workers={"fx": {"*": [["delay", ["ok", "late-x"]]]}, "fy": {"*": [["delay", ["ok", "y"]]]}},
+                     schedule="timed", delay_budget=1, canonical_avoid=[["wreply", "fx"], ["wreply", "fy"]], crash_from=11))
     if tier == "thorough":
         add("crash-parallel-2x2", chain(("P", Parallel([chain(("A1", Task("fa")), ("A2", Task("fa2"))), chain(("B1", Task("fb")), ("B2", Wait(1)))])), Z),
             workers={"fa": {"*": OK("a")}, "fb": {"*": OK("b")}, "fa2": {"*": OK("a2")}})
@@ -31,16 +41,38 @@ def canonical(sc):
     w = World(sc)
     ops = []
     labels = []
+    armed = [False]
+    clocks = [0.0]
     while True:
         en = w.enabled()
         w.enabled_cache = en
         if not en:
             break
         n0 = len(w.broker.oplog)
-        w.step(en[0])
-        labels.append(list(en[0]))
+        avoid = [tuple(a) for a in sc.get("canonical_avoid", [])]
+        pick = en[0]
+        for e in en:
+            if e not in avoid:
+                pick = e
+                break
+        w.step(pick)
+        labels.append(list(pick))
+        en = [pick]
+        from pika import _core as simcore
+        clocks.append(w.clock.now - 1900000000.0)
+        armed.append(any(simcore.timer_kind(t.callback).endswith("asl_state_Wait.<locals>.on_timeout")
+                         for inst in w.live_instances() for t in w.timers(inst.conn)))
         ops.append(sum(1 for o in w.broker.oplog[n0:] if o["op"] in ("publish", "ack", "set_timeout")) if en[0][0] in ("deliver", "timer", "return", "call") else 0)
+    # differential oracle: the crash-free run of the implementation itself on the canonical schedule
+    exp = {}
+    for n in w.notes:
+        d = n["body"]["detail"]
+        if d["status"] != "RUNNING":
+            exp[d["executionArn"]] = {"status": d["status"], "output": json.loads(d["output"]) if d.get("output") is not None else None, "error": d.get("error")}
+    sc["expect"] = exp
     w.close()
+    sc["_wait_armed"] = armed
+    sc["_clock"] = clocks
     return labels, ops
 
 def run(tier, seed):
@@ -48,22 +80,32 @@ def run(tier, seed):
     scs = scenarios(tier)
     jobs = []
     by_name = {}
-    npoints = {"between": 0, "inflight": 0, "midstep": 0, "double": 0}
+    npoints = {"between": 0, "inflight": 0, "midstep": 0, "double": 0, "downtime": 0}
     limits0 = {"max_states": 20000 if tier == "quick" else 200000, "max_depth": 400, "only": list(MONITORS)}
     for sc in scs:
         common.annotate(sc)
         labels, ops = canonical(sc)
         for k in range(len(labels) + 1):
-            for variant in ("between", "inflight"):
+            for variant in ("between", "inflight") + (("downtime",) if sc.get("downtime") else ()):
+                if variant == "downtime" and not (sc["_wait_armed"][k] and sc["_clock"][k] + sc["downtime"] < sc["machines"]["m"]["definition"].get("TimeoutSeconds", 1e9)):
+                    continue     # downtime before the Wait is entered / past the deadline legitimately ends in the execution time-out
                 s2 = copy.deepcopy(sc)
+                s2.pop("_wait_armed", None); s2.pop("_clock", None)
                 s2["name"] = "%s@%s%d" % (sc["name"], variant[0], k)
                 s2["family"] = "%s/%s" % (sc["family"], variant)
                 s2["preserve_outcome"] = True
-                crash = ["crash", 1] if variant == "between" else ["crash", 1, "inflight"]
-                lim = dict(limits0, preamble=labels[:k] + [crash, ["restart", 1]])
+                crash = ["crash", 1, "inflight"] if variant == "inflight" else ["crash", 1]
+                pre = labels[:k] + [crash] + ([["sleep", sc["downtime"]]] if variant == "downtime" else []) + [["restart", 1]]
+                if k < sc.get("crash_from", 0):
+                    continue
+                if sc.get("schedule") == "timed":
+                    s2["delay_budget"] = 0      # after the restart time only passes while the system is idle (prompt class)
+                lim = dict(limits0, preamble=pre)
                 jobs.append((s2, None, lim)); by_name[s2["name"]] = s2
                 npoints[variant] += 1
         for j, lab in enumerate(labels):
+            if j < sc.get("crash_from", 0) and sc.get("crash_from"):
+                continue
             for k in range(1, ops[j] + 1):
                 s2 = copy.deepcopy(sc)
                 s2["name"] = "%s@m%d.%d" % (sc["name"], j, k)
